@@ -1,22 +1,71 @@
-import QibModel.GQ
 /-!
-Model of `algorithms/qubitization`: the gate list built by `ProjectorControlledPhaseShift.as_circuit`
-(both methods) and the pairing loops of `EigenvalueTransformation.as_matrix` / `as_circuit`.
-Mathlib-free and polymorphic in the scalar/matrix type so that the same definitions are executed by the
-driver (exact rationals) and reasoned about in `QibProofs/Properties/C19.lean` (over ℝ / any monoid).
+Model of `qib/algorithms/qubitization` (C19), Mathlib-free and polymorphic in the scalar type so that the very same
+definitions are executed by the driver `drv_qubitization` (exact rationals) and reasoned about in
+`QibProofs/Properties/C19.lean` (over ℝ, resp. over an arbitrary monoid of "matrices").
+
+Mirrors
+
+* `ProjectorControlledPhaseShift.__init__`             ↦ `Pcps.init`            (what the constructor rejects),
+* `ProjectorControlledPhaseShift.as_circuit`           ↦ `Pcps.asCircuit`       (gate list of both methods, same loops,
+                                                                                 same rejections),
+* `ProjectorControlledPhaseShift.as_matrix`            ↦ `Pcps.asMatrixDiag`    (which diagonal entry carries `e^{+iθ}`),
+* `EigenvalueTransformation.as_matrix`                 ↦ `evtMatrix`            (even/odd split, `range(start, dim+start)`,
+                                                                                 the index arithmetic `2*i-start`, `2*i+1-start`),
+* `EigenvalueTransformation.as_circuit`                ↦ `evtCircuit`           (same loop, `prepend_circuit` / `prepend_gate`),
+
+plus the *meaning* of the gates that `as_circuit` emits on computational basis states (`GateDesc.act`: every such
+gate maps a basis state to a basis state times a phase `e^{iφ}`), which the driver tabulates and the harness
+compares with the columns of the real `as_circuit_matrix`, and the *defining* alternating product `evtSpec`.
+
+Qubits are labels (`Nat`); a register state is a function `Nat → Bool` (label ↦ bit).
 -/
 namespace Qib.Qubitization
 
-/-- a gate as `as_circuit` appends it: kind, rotation angle (or phase), target encoding-qubit position
-(`none` = the auxiliary qubit), control positions (encoding qubits `0 … nctrl-1`, all controlled on 0). -/
+/-- exception classes of the Python code, as far as the modelled functions raise them
+(`IndexError`/`AttributeError` ↦ `other`) -/
+inductive Err | valueError | runtimeError | other
+  deriving DecidableEq, Repr
+
+def Err.toStr : Err → String
+  | .valueError => "ValueError" | .runtimeError => "RuntimeError" | .other => "Other"
+
+inductive Method | auxiliary | cphase
+  deriving DecidableEq, Repr
+
+/-- a gate as `as_circuit` appends it. Control states are kept as the integers the code passes on
+(`self.projection_state[:i]`). -/
 inductive GateDesc (α : Type) where
-  | mcx (nctrl : Nat)                       -- multi-controlled X on the auxiliary qubit, controls = all encoding qubits, state 0…0
-  | rzAux (angle : α)                       -- Rz(angle) on the auxiliary qubit
-  | rz (angle : α) (target : Nat)           -- Rz(angle) on encoding qubit `target`
-  | crz (angle : α) (target : Nat) (nctrl : Nat)   -- Rz(angle) on encoding qubit `target`, controlled on encoding qubits 0…nctrl-1 being 0
-  | phase (phi : α) (nwires : Nat)          -- global phase on the encoding qubits
+  /-- `ControlledGate(PauliXGate(target), len(ctrls), cstate).set_control(ctrls)` -/
+  | cx (ctrls : List Nat) (cstate : List Int) (target : Nat)
+  /-- `RzGate(angle, target)` -/
+  | rz (angle : α) (target : Nat)
+  /-- `ControlledGate(RzGate(angle, target), len(ctrls), cstate).set_control(ctrls)` -/
+  | crz (angle : α) (ctrls : List Nat) (cstate : List Int) (target : Nat)
+  /-- `PhaseFactorGate(phi, nwires).on(qubits)` -/
+  | phase (phi : α) (nwires : Nat) (qubits : List Nat)
   deriving Repr, DecidableEq
 
+/-- the fields of a `ProjectorControlledPhaseShift` object -/
+structure Pcps (α : Type) where
+  theta : α
+  proj : List Int
+  enc : List Nat
+  aux : List Nat
+  method : Method
+  deriving Repr
+
+/-- `__init__`: `ValueError` for a projection state with an entry outside {0,1} (checked first), `RuntimeError` for an
+unknown method; for a method other than "auxiliary" the auxiliary list is emptied. -/
+def Pcps.init {α : Type} (θ : α) (proj : List Int) (enc aux : List Nat) (method : String) : Except Err (Pcps α) :=
+  if proj.any (fun s => s != 0 && s != 1) then .error .valueError else
+  if method == "auxiliary" then .ok ⟨θ, proj, enc, aux, .auxiliary⟩
+  else if method == "c-phase" then .ok ⟨θ, proj, enc, [], .cphase⟩
+  else .error .runtimeError
+
+/-- `set_theta` -/
+def Pcps.setTheta {α : Type} (p : Pcps α) (θ : α) : Pcps α := { p with theta := θ }
+
+section Scalars
 variable {α : Type} [Mul α] [Div α] [Neg α] [Sub α] [OfNat α 1] [OfNat α 2]
 
 /-- `2 ** k` in the scalar type by repeated multiplication -/
@@ -24,40 +73,176 @@ def pow2 : Nat → α
   | 0 => 1
   | k + 1 => 2 * pow2 k
 
-/-- `as_circuit` with `method == "auxiliary"` (size_enc = m) -/
-def auxCircuit (θ : α) (m : Nat) : List (GateDesc α) :=
-  [.mcx m, .rzAux (2 * θ), .mcx m]
+/-- the `i`-th gate of the c-phase cascade (`1 ≤ i < size_enc`):
+`ControlledGate(RzGate(-2θ/2**(max_den-i), enc[i]), i, proj[:i]).set_control(enc[:i])` -/
+def cphaseStep (θ : α) (proj : List Int) (enc : List Nat) (maxDen i : Nat) : GateDesc α :=
+  .crz (-(2 * θ) / pow2 (maxDen - i)) (enc.take i) (proj.take i) (enc.getD i 0)
 
-/-- `as_circuit` with `method == "c-phase"` (size_enc = m ≥ 1) -/
-def cphaseCircuit (θ : α) (m : Nat) : List (GateDesc α) :=
-  let maxDen := m - 1
-  [GateDesc.rz (-(2 * θ) / pow2 maxDen) 0]
-    ++ (List.range (m - 1)).map (fun k => GateDesc.crz (-(2 * θ) / pow2 (maxDen - (k + 1))) (k + 1) (k + 1))
-    ++ [GateDesc.phase ((1 - pow2 maxDen) * θ / pow2 maxDen) m]
+/-- `as_circuit` with `method == "c-phase"`, after the checks; `e0 = enc[0]` -/
+def cphaseCircuit (θ : α) (proj : List Int) (enc : List Nat) (e0 : Nat) : List (GateDesc α) :=
+  let sizeEnc := enc.length
+  let maxDen := sizeEnc - 1
+  [GateDesc.rz (-(2 * θ) / pow2 maxDen) e0]
+    ++ (List.range' 1 (sizeEnc - 1)).map (cphaseStep θ proj enc maxDen)
+    ++ [GateDesc.phase ((1 - pow2 maxDen) * θ / pow2 maxDen) sizeEnc enc]
 
-/-! ### eigenvalue transformation: the code's pairing loops and the defining alternating product -/
+/-- `as_circuit` with `method == "auxiliary"`, after the checks; `a = auxiliary_qubits[0]` -/
+def auxCircuit (θ : α) (proj : List Int) (enc : List Nat) (a : Nat) : List (GateDesc α) :=
+  [.cx enc proj a, .rz (2 * θ) a, .cx enc proj a]
+
+/-- `ProjectorControlledPhaseShift.as_circuit`: `RuntimeError` if the projection state has the wrong length or a
+non-zero entry; `IndexError` (↦ `other`) if the needed first qubit does not exist. -/
+def Pcps.asCircuit (p : Pcps α) : Except Err (List (GateDesc α)) :=
+  if p.proj.length ≠ p.enc.length then .error .runtimeError else
+  if p.proj.any (· != 0) then .error .runtimeError else
+  match p.method with
+  | .auxiliary =>
+    match p.aux with
+    | [] => .error .other
+    | a :: _ => .ok (auxCircuit p.theta p.proj p.enc a)
+  | .cphase =>
+    match p.enc with
+    | [] => .error .other
+    | e0 :: _ => .ok (cphaseCircuit p.theta p.proj p.enc e0)
+
+end Scalars
+
+/-- `int(''.join(map(str, projection_state)), 2)` for a 0/1 list -/
+def binaryIndex (proj : List Int) : Nat := proj.foldl (fun acc s => 2 * acc + s.toNat) 0
+
+/-- `ProjectorControlledPhaseShift.as_matrix` up to the exponential: the matrix is `expm(iθ(2|k⟩⟨k| − 1))` on
+`2 ** len(projection_state)` states with `k = binaryIndex`; the result lists, per basis state, whether it is the
+projection state. `RuntimeError` for a non-zero entry, `ValueError` for the empty state (`int('', 2)`). -/
+def pcpsMatrixDiag (proj : List Int) : Except Err (List Bool) :=
+  if proj.any (· != 0) then .error .runtimeError else
+  if proj.isEmpty then .error .valueError else
+  .ok ((List.range (2 ^ proj.length)).map (· == binaryIndex proj))
+
+/-! ### what the emitted gates do to a computational basis state -/
+
+section Act
+variable {α : Type} [Div α] [Neg α] [OfNat α 0] [OfNat α 2]
+
+/-- all control qubits carry their control value -/
+def ctrlActive (bits : Nat → Bool) (ctrls : List Nat) (cstate : List Int) : Bool :=
+  (ctrls.zip cstate).all fun cs => bits cs.1 == (cs.2 == 1)
+
+/-- flip the bit of qubit `t` -/
+def flipBit (bits : Nat → Bool) (t : Nat) : Nat → Bool := fun k => if k = t then !bits k else bits k
+
+/-- phase angle of `Rz(a) = diag(e^{-ia/2}, e^{ia/2})` on a basis state -/
+def rzPhase (a : α) (b : Bool) : α := if b then a / 2 else -(a / 2)
+
+/-- a gate of the list maps the basis state `bits` to the basis state `(act g bits).1` times `e^{i (act g bits).2}` -/
+def GateDesc.act (g : GateDesc α) (bits : Nat → Bool) : (Nat → Bool) × α :=
+  match g with
+  | .cx cs st t => (if ctrlActive bits cs st then flipBit bits t else bits, 0)
+  | .rz a t => (bits, rzPhase a (bits t))
+  | .crz a cs st t => (bits, if ctrlActive bits cs st then rzPhase a (bits t) else 0)
+  | .phase φ _ _ => (bits, φ)
+
+/-- a circuit (first gate applied first): final basis state and accumulated phase angle -/
+def circuitAct [Add α] : List (GateDesc α) → (Nat → Bool) → (Nat → Bool) × α
+  | [], bits => (bits, 0)
+  | g :: gs, bits =>
+    let r := g.act bits
+    let r' := circuitAct gs r.1
+    (r'.1, r.2 + r'.2)
+
+end Act
+
+/-! ### eigenvalue transformation -/
 
 section EVT
-variable {M : Type} [Mul M] [One M]
+variable {α M : Type} [Mul M] [One M]
 
-/-- the `for i in range(start, dim+start)` loop: consume the remaining angles in consecutive pairs -/
-def evtPairs (P : α → M) (U Ui : M) : M → List α → M
-  | acc, a :: b :: rest => evtPairs P U Ui (acc * P a * Ui * P b * U) rest
-  | acc, _ => acc
+/-- body of `for i in range(start, dim + start)` in `as_matrix`:
+`matrix = matrix @ P(θ[2i-start]) @ U_inv`, then `matrix = matrix @ P(θ[2i+1-start]) @ U` -/
+def evtBody (P : α → M) (U Ui : M) (θs : List α) (start : Nat) (acc : M) (i : Nat) : Except Err M :=
+  match θs[2 * i - start]?, θs[2 * i + 1 - start]? with
+  | some a, some b => .ok (acc * P a * Ui * P b * U)
+  | _, _ => .error .other
 
-/-- `EigenvalueTransformation.as_matrix`: even/odd split, then the pairing loop -/
-def evtCode (P : α → M) (U Ui : M) (θs : List α) : M :=
-  if θs.length % 2 = 0 then evtPairs P U Ui 1 θs
-  else match θs with
-    | [] => 1
-    | a :: rest => evtPairs P U Ui (1 * P a * U) rest
+def evtLoop (P : α → M) (U Ui : M) (θs : List α) (start : Nat) : M → List Nat → Except Err M
+  | acc, [] => .ok acc
+  | acc, i :: is =>
+    match evtBody P U Ui θs start acc i with
+    | .error e => .error e
+    | .ok acc' => evtLoop P U Ui θs start acc' is
 
-/-- the defining product: one phase shift per angle, followed alternately by the encoding and its inverse,
+/-- `EigenvalueTransformation.as_matrix`; `P θ` stands for `np.kron(processing.as_matrix(), id)` after `set_theta(θ)`,
+`U`/`Ui` for the matrices of the block encoding and of its `inverse()`. `none`/`[]` angles: `ValueError`. -/
+def evtMatrix (P : α → M) (U Ui : M) (θs : Option (List α)) : Except Err M :=
+  match θs with
+  | none => .error .valueError
+  | some [] => .error .valueError
+  | some (a0 :: rest) =>
+    let l := a0 :: rest
+    if l.length % 2 = 0 then
+      let dim := l.length / 2
+      evtLoop P U Ui l 0 1 (List.range' 0 dim)
+    else
+      let dim := (l.length - 1) / 2
+      evtLoop P U Ui l 1 (1 * P a0 * U) (List.range' 1 dim)
+
+/-- the defining product: one phase shift per angle, each followed by the encoding or its inverse alternately,
 the LAST factor always being the encoding itself -/
 def evtSpec (P : α → M) (U Ui : M) : List α → M
   | [] => 1
   | a :: rest => (P a * (if rest.length % 2 = 0 then U else Ui)) * evtSpec P U Ui rest
 
 end EVT
+
+section EVTCircuit
+variable {α : Type} [Mul α] [Div α] [Neg α] [Sub α] [OfNat α 1] [OfNat α 2]
+
+/-- an entry of the circuit built by `EigenvalueTransformation.as_circuit` -/
+inductive EvtItem (α : Type) where
+  | enc                       -- `self.block_encoding`
+  | encInv                    -- `self.block_encoding.inverse()`
+  | gate (g : GateDesc α)     -- a gate of `self.processing.as_circuit()`
+  deriving Repr, DecidableEq
+
+/-- `circuit.prepend_circuit(processing.as_circuit())` after `processing.set_theta(θ)`, then `circuit.prepend_gate(g)` -/
+def evtPrepend (pc : Pcps α) (θ : α) (g : EvtItem α) (circ : List (EvtItem α)) : Except Err (List (EvtItem α)) :=
+  match (pc.setTheta θ).asCircuit with
+  | .error e => .error e
+  | .ok sub => .ok (g :: (sub.map EvtItem.gate ++ circ))
+
+def evtCircuitBody (pc : Pcps α) (θs : List α) (start : Nat) (circ : List (EvtItem α)) (i : Nat) :
+    Except Err (List (EvtItem α)) :=
+  match θs[2 * i - start]?, θs[2 * i + 1 - start]? with
+  | some a, some b =>
+    match evtPrepend pc a .encInv circ with
+    | .error e => .error e
+    | .ok c1 => evtPrepend pc b .enc c1
+  | _, _ => .error .other
+
+def evtCircuitLoop (pc : Pcps α) (θs : List α) (start : Nat) : List (EvtItem α) → List Nat → Except Err (List (EvtItem α))
+  | circ, [] => .ok circ
+  | circ, i :: is =>
+    match evtCircuitBody pc θs start circ i with
+    | .error e => .error e
+    | .ok c' => evtCircuitLoop pc θs start c' is
+
+/-- `EigenvalueTransformation.as_circuit`; `encAux` = `block_encoding.auxiliary_qubits`. The first gate of the
+returned list is applied first. -/
+def evtCircuit (pc : Pcps α) (encAux : List Nat) (θs : Option (List α)) : Except Err (List (EvtItem α)) :=
+  if encAux ≠ pc.enc then .error .runtimeError else
+  match θs with
+  | none => .error .valueError
+  | some [] => .error .valueError
+  | some (a0 :: rest) =>
+    let l := a0 :: rest
+    if l.length % 2 = 0 then
+      let dim := l.length / 2
+      evtCircuitLoop pc l 0 [] (List.range' 0 dim)
+    else
+      let dim := (l.length - 1) / 2
+      match evtPrepend pc a0 .enc [] with
+      | .error e => .error e
+      | .ok c0 => evtCircuitLoop pc l 1 c0 (List.range' 1 dim)
+
+end EVTCircuit
 
 end Qib.Qubitization
